@@ -2,6 +2,9 @@
 import json, random
 import common
 import registry_of_checks as R
+
+COMPONENTS = ['details', 'platform']
+DRIVERS = {'details': (['run_c16'], ['details/Run.vo'])}
 from common import sh, PROBE
 
 TB = ['Coq 8.16.1 kernel + vm_compute (finite sweep over the extracted DETAILS table); no native_compute',
@@ -38,7 +41,7 @@ def run(ctx, only=None):
                        'restore_default succeeds for signals the table knows']
     if not ctx.harness():
         return
-    ctx.translate(['details', 'platform'])
+    ctx.translate(COMPONENTS)
     ctx.prove('props/C16.v')
     sigs = only or sweep(ctx)
     rc, out, _ = sh([PROBE, 'c16'] + [str(s) for s in sigs], timeout=900)
@@ -50,7 +53,7 @@ def run(ctx, only=None):
     if rc != 0 or not impl:
         ctx.correspondence('c16 probes ran', False, out[-1000:])
         return
-    have_model = ctx.driver('details', *R.DRIVERS['details'])
+    have_model = ctx.driver('details', *R.all_drivers()['details'])
     model = {}
     if have_model:
         req = []
